@@ -19,6 +19,9 @@ fn mc_with(params: &Value, formats: Option<&Value>) -> Vec<u8> {
         (Value::int(2), Value::Map(vec![ks("id", Value::text("example.org"))])),
         (Value::int(3), Value::Map(vec![ks("id", Value::Bytes(vec![1]))])),
         (Value::int(4), params.clone()),
+        // members behind the list: a decoder that leaves part of the list unread trips over them
+        (Value::int(7), Value::Map(vec![ks("rk", Value::Bool(true))])),
+        (Value::int(9), Value::Uint(1)),
     ];
     if let Some(f) = formats {
         m.push((Value::int(11), f.clone()));
